@@ -133,10 +133,27 @@ func isLenCall(v ssa.Value) bool {
 	return ok && (bi.Name() == "len" || bi.Name() == "cap")
 }
 
+// sameSpanEnds: x and y are the two ends of one match: components 0 and 1 of the same result tuple, or the
+// results of two methods called on the same match value.
+func sameSpanEnds(x, y ssa.Value) bool {
+	x, y = stripConv(x), stripConv(y)
+	if ex, ok := x.(*ssa.Extract); ok {
+		if ey, ok := y.(*ssa.Extract); ok {
+			return ex.Tuple == ey.Tuple && ex.Index != ey.Index
+		}
+	}
+	if cx, ok := x.(*ssa.Call); ok {
+		if cy, ok := y.(*ssa.Call); ok && len(cx.Call.Args) == 1 && len(cy.Call.Args) == 1 {
+			return cx.Call.Args[0] == cy.Call.Args[0] && cx.Call.StaticCallee() != cy.Call.StaticCallee()
+		}
+	}
+	return false
+}
+
 func init() {
 	core.Register(&core.Rule{
 		Name: "R-RUNEADV",
-		Doc: "Match-iteration loops resume one rune, not one byte, after an empty match: in the root and meta packages, a loop that calls a search with a loop-carried resume position (an int phi passed next to a byte slice) and tests the match for emptiness (an equality of two match-derived ints whose true edge dominates an update of the position) must compute that update from the haystack's content (a byte read, a unicode/utf8 decoding call, or a width helper). regexp steps by the width of the rune at the position; an update that is a function of the match span alone cannot tell `é` (next position 2) from `ab` (next position 1) - the spans found so far are equal - so it is wrong for one of them: the empty pattern then matches inside a UTF-8 sequence and Replace* splits the rune. Necessary for C04 (same sequence of matches as regexp) and C08 (replace loops, Split).",
+		Doc: "Match-iteration loops resume one rune, not one byte, after an empty match: in the root and meta packages, a loop that calls a search with a loop-carried resume position (an int phi passed next to a byte slice) and tests the match for emptiness (an equality of two match-derived ints whose true edge dominates an update of the position) must compute that update from the haystack's content (a byte read, a unicode/utf8 decoding call, or a width helper). regexp steps by the width of the rune at the position; an update that is a function of the match span alone cannot tell `é` (next position 2) from `ab` (next position 1) - the spans found so far are equal - so it is wrong for one of them: the empty pattern then matches inside a UTF-8 sequence and Replace* splits the rune. (b) In such a loop a one-byte step (position + 1, match end + 1) is confined to the branch that excludes emptiness; folding the empty case into an else-branch that steps by one byte is the same defect without the tell-tale 'empty' branch. Necessary for C04 (same sequence of matches as regexp) and C08 (replace loops, Split).",
 		Min: 10, NeedSSA: true,
 		Run: func(p *core.Prog) *core.RuleResult {
 			res := &core.RuleResult{}
@@ -199,7 +216,8 @@ func init() {
 					continue
 				}
 				// emptiness tests: true-edge targets of int equalities inside the loop
-				var trueTargets []*ssa.BasicBlock
+				var trueTargets, nonEmptyTargets []*ssa.BasicBlock
+				spanTests := 0
 				for _, b := range fn.Blocks {
 					if !inLoop(b) || len(b.Instrs) == 0 {
 						continue
@@ -209,6 +227,14 @@ func init() {
 						continue
 					}
 					bo, ok := iff.Cond.(*ssa.BinOp)
+					if ok && bo.Op == token.NEQ && isIntType(bo.X.Type()) && sameSpanEnds(bo.X, bo.Y) {
+						// start != end: the true edge excludes emptiness
+						if t := b.Succs[0]; len(t.Preds) == 1 {
+							nonEmptyTargets = append(nonEmptyTargets, t)
+						}
+						spanTests++
+						continue
+					}
 					if !ok || bo.Op != token.EQL || !isIntType(bo.X.Type()) || !isIntType(bo.Y.Type()) {
 						continue
 					}
@@ -224,6 +250,10 @@ func init() {
 					t := b.Succs[0]
 					if len(t.Preds) == 1 {
 						trueTargets = append(trueTargets, t)
+					}
+					if f := b.Succs[1]; len(f.Preds) == 1 && sameSpanEnds(bo.X, bo.Y) {
+						nonEmptyTargets = append(nonEmptyTargets, f)
+						spanTests++
 					}
 				}
 				for _, pi := range poss {
@@ -266,6 +296,23 @@ func init() {
 							}
 						}
 						if !dominated {
+							// (b) a one-byte step that is not confined to non-empty matches: position + 1 (or match
+							// end + 1) on a path that the emptiness test does not exclude
+							if bo, ok := lf.val.(*ssa.BinOp); ok && bo.Op == token.ADD && spanTests > 0 {
+								if c, isC := constInt(bo.Y); isC && c == 1 && !readsContent(p, lf.val, map[ssa.Value]bool{}, 0) {
+									excluded := false
+									for _, t := range nonEmptyTargets {
+										if t == defB || t.Dominates(defB) {
+											excluded = true
+										}
+									}
+									if !excluded {
+										o := core.Obligation{Key: kc.Key("R-RUNEADV", core.FuncName(fn), "one-byte step of "+pi.callee+" only after a non-empty match"), Pos: p.Pos(lf.val.Pos()), Nontrivial: true, Status: core.Violated}
+										o.Detail = fmt.Sprintf("the loop tests matches for emptiness, yet the update %s of the resume position is reachable for an empty match (it is neither on the empty branch, where the rune width must be used, nor behind the branch that excludes emptiness): after an empty match in front of a multi-byte rune the next search starts inside it", lf.val.String())
+										res.Obligations = append(res.Obligations, o)
+									}
+								}
+							}
 							continue
 						}
 						if !counted {
